@@ -8,6 +8,8 @@ pub mod oracle;
 pub mod util;
 
 #[cfg(kani)]
+pub mod c01;
+#[cfg(kani)]
 pub mod c03;
 #[cfg(kani)]
 pub mod c08;
